@@ -318,15 +318,20 @@ buildexe(struct input *inputs, size_t ninputs, char *output)
 	arrayaddptr(&s->cmd, NULL);
 
 	ret = spawn(&pid, &s->cmd, NULL);
-	if (ret)
-		fatal("%s: spawn \"%s\": %s", s->name, *(char **)s->cmd.val, strerror(errno));
-	if (waitpid(pid, &status, 0) < 0)
-		fatal("waitpid %ju:", (uintmax_t)pid);
+	if (ret) {
+		warn("%s: spawn \"%s\": %s", s->name, *(char **)s->cmd.val, strerror(ret));
+	} else if (waitpid(pid, &status, 0) < 0) {
+		warn("waitpid %ju:", (uintmax_t)pid);
+		ret = -1;
+	} else if (!succeeded(s->name, pid, status)) {
+		ret = -1;
+	}
+	/* remove the temporary objects whether or not linking worked */
 	for (i = 0; i < ninputs; ++i) {
 		if (inputs[i].filetype != OBJ)
 			unlink(inputs[i].name);
 	}
-	exit(!succeeded(s->name, pid, status));
+	exit(ret != 0);
 }
 
 static char *
